@@ -10,10 +10,10 @@
               {"vname": "rm_other_b", "defines": ["-DV_RM", "-DV_OTHER", "-DTR_STATE_FROM=8", "-DTR_STATE_TO=16"]},
               {"vname": "rm_other_c", "defines": ["-DV_RM", "-DV_OTHER", "-DTR_STATE_FROM=16", "-DTR_STATE_TO=24"]},
               {"vname": "rm_other_d", "defines": ["-DV_RM", "-DV_OTHER", "-DTR_STATE_FROM=24", "-DTR_STATE_TO=32"]},
-              {"vname": "put_a", "defines": ["-DV_PUT", "-DTR_STATE_FROM=0", "-DTR_STATE_TO=8"]},
-              {"vname": "put_b", "defines": ["-DV_PUT", "-DTR_STATE_FROM=8", "-DTR_STATE_TO=16"]},
-              {"vname": "put_c", "defines": ["-DV_PUT", "-DTR_STATE_FROM=16", "-DTR_STATE_TO=24"]},
-              {"vname": "put_d", "defines": ["-DV_PUT", "-DTR_STATE_FROM=24", "-DTR_STATE_TO=32"]}]}
+              {"vname": "put_a", "tier": "off", "defines": ["-DV_PUT", "-DTR_STATE_FROM=0", "-DTR_STATE_TO=8"]},
+              {"vname": "put_b", "tier": "off", "defines": ["-DV_PUT", "-DTR_STATE_FROM=8", "-DTR_STATE_TO=16"]},
+              {"vname": "put_c", "tier": "off", "defines": ["-DV_PUT", "-DTR_STATE_FROM=16", "-DTR_STATE_TO=24"]},
+              {"vname": "put_d", "tier": "off", "defines": ["-DV_PUT", "-DTR_STATE_FROM=24", "-DTR_STATE_TO=32"]}]}
 */
 /* Mutation under an open trie iterator (C18): while an iterator is parked after 0..2 steps, one entry is removed
  * (any key: before, at or after the position, the last one) or put (new key, replacement, a key that splits a
@@ -23,6 +23,8 @@
  *  - every key present during the whole iteration is returned exactly once (removals) / at least once (puts),
  *    no key is returned that was never present, no key twice when only a removal happened;
  *  - once the iterator is gone the trie is again exactly the dictionary of the surviving entries.
+ *  put_*    : TOOL LIMIT -- tier "off": symbolic execution does not finish within 1200 s (measured on put_a); put under an
+ *             open trie iterator is therefore NOT decided by the registered checks (C18 level_note).
  *  rm_other : the removed key is not the one the iterator is parked on;
  *  rm_parked: the removed key IS the one the iterator is parked on.  GENUINE DEFECT T1: trie_rm only drops one
  *             of the node's two references; the value stays, so get() still finds the key until the iterator
